@@ -20,7 +20,8 @@ Inductive arity := One | Opt | Many.
 
 (* s_group = 0: ordinary; otherwise members of the same group are mutually exclusive
    alternatives (arity One): the encoder emits the first non-zero one *)
-Record sub := { s_tid : N; s_arity : arity; s_group : N }.
+(* s_req: a repeatable sub-parameter that is not optional needs at least one element *)
+Record sub := { s_tid : N; s_arity : arity; s_group : N; s_req : bool }.
 
 Inductive ckind := KMsg | KTLV | KTV.
 Record container := { c_kind : ckind; c_tid : N; c_fields : list fkind; c_subs : list sub }.
